@@ -415,10 +415,12 @@ class DemoStorage(ConflictResolvingStorage):
         self._commit_lock.acquire()
 
         with self._lock:
-            self.changes.tpc_begin(transaction, *a, **k)
+            # Record the transaction first (as BaseStorage does), so that
+            # tpc_abort releases the commit locks if changes.tpc_begin fails.
             self._transaction = transaction
             self._stored_oids = set()
             del self._resolved[:]
+            self.changes.tpc_begin(transaction, *a, **k)
 
     def tpc_vote(self, *a, **k):
         if self.changes.tpc_vote(*a, **k):
